@@ -48,7 +48,9 @@ def infrastructure_constraints_feasible(
                 return False
     else:
         for j, v in enumerate(infrastructure.constraint_matrix):
-            line_currents = np.linalg.norm(np.abs(v) @ rates, axis=0)
+            # One aggregate current per time index (a norm over axis 0 of this 1-D
+            # vector would mix the periods of a multi-period schedule together).
+            line_currents = np.abs(np.abs(v) @ rates)
             if not np.all(
                 line_currents <= infrastructure.constraint_limits[j] + tol[j]
             ):
